@@ -13,6 +13,7 @@ import (
 	"fmt"
 	"math/big"
 	"runtime"
+	"runtime/debug"
 	"strings"
 	"testing"
 
@@ -41,7 +42,11 @@ type Case struct {
 	Vals [][]string `json:"vals,omitempty"`
 }
 
-func init() { ev.Register("builders", run) }
+func init() {
+	ev.Register("builders", run)
+	// Building circuits allocates millions of small objects.
+	debug.SetGCPercent(400)
+}
 
 // ---------------------------------------------------------------------------
 // Builder table.
@@ -295,7 +300,7 @@ func (cs *Case) valid(sp *spec) string {
 		return "operand count"
 	}
 	for _, w := range cs.W {
-		if w < 1 || w > 400 {
+		if w < 1 || w > 600 {
 			return "operand width"
 		}
 	}
@@ -869,23 +874,24 @@ func heavy(b string, gmw bool) bool {
 }
 
 func drawWidth(t *rapid.T, label string, hv bool) int {
+	// Low draws (rapid's bias) select the algorithm-switch table.
 	k := rapid.IntRange(0, 99).Draw(t, label+"-kind")
 	switch {
-	case k < 25:
-		return rapid.IntRange(1, 7).Draw(t, label)
-	case k < 80:
+	case k < 55:
 		if hv {
-			if k >= 77 {
+			if k < 4 {
 				return rapid.SampledFrom([]int{63, 64, 65}).Draw(t, label)
 			}
 			return rapid.SampledFrom(heavyWidths).Draw(t, label)
 		}
 		return rapid.SampledFrom(switchWidths).Draw(t, label)
+	case k < 75:
+		if hv {
+			return rapid.IntRange(1, 48).Draw(t, label)
+		}
+		return rapid.IntRange(1, 130).Draw(t, label)
 	}
-	if hv {
-		return rapid.IntRange(1, 48).Draw(t, label)
-	}
-	return rapid.IntRange(1, 130).Draw(t, label)
+	return rapid.IntRange(1, 7).Draw(t, label)
 }
 
 func drawValue(t *rapid.T, w int, label string) *big.Int {
@@ -929,16 +935,17 @@ var builderWeights = []struct {
 	id string
 	n  int
 }{
-	{"NewAdder", 4}, {"NewKoggeStoneAdder", 3}, {"NewSubtractor", 4}, {"NewKoggeStoneSubtractor", 3},
-	{"NewMultiplier", 8}, {"NewArrayMultiplier", 3}, {"NewKaratsubaMultiplier", 6}, {"NewWallaceMultiplier", 3},
-	{"NewBinaryAND", 1}, {"NewBinaryOR", 1}, {"NewBinaryXOR", 1}, {"NewBinaryClear", 1}, {"Hamming", 3},
-	{"NewUDivider", 6}, {"NewUDividerLong", 2}, {"NewUDividerRestoring", 2}, {"NewUDividerArray", 2},
-	{"NewUDividerGoldschmidtFast", 4}, {"NewIDivider", 8},
-	{"NewUintLtComparator", 1}, {"NewUintLeComparator", 1}, {"NewUintGtComparator", 1}, {"NewUintGeComparator", 1},
-	{"NewEqComparator", 1}, {"NewNeqComparator", 1},
+	// rapid biases draws towards low indices: the deepest builders come first.
+	{"NewIDivider", 7}, {"NewUDivider", 6}, {"NewMultiplier", 8}, {"NewKaratsubaMultiplier", 6},
+	{"NewUDividerGoldschmidtFast", 4}, {"NewWallaceMultiplier", 3}, {"NewArrayMultiplier", 3},
+	{"NewSubtractor", 4}, {"NewKoggeStoneSubtractor", 3}, {"NewAdder", 4}, {"NewKoggeStoneAdder", 3},
+	{"NewUDividerLong", 2}, {"NewUDividerRestoring", 2}, {"NewUDividerArray", 2},
+	{"Hamming", 3}, {"NewIndex", 4}, {"NewMUX", 3},
 	{"NewIntLtComparator", 2}, {"NewIntLeComparator", 2}, {"NewIntGtComparator", 2}, {"NewIntGeComparator", 2},
-	{"NewLogicalAND", 1}, {"NewLogicalOR", 1}, {"NewBitSetTest", 1}, {"NewBitClrTest", 1},
-	{"NewMUX", 3}, {"NewIndex", 4},
+	{"NewUintLtComparator", 1}, {"NewUintLeComparator", 1}, {"NewUintGtComparator", 1}, {"NewUintGeComparator", 1},
+	{"NewEqComparator", 2}, {"NewNeqComparator", 1},
+	{"NewBinaryAND", 1}, {"NewBinaryOR", 1}, {"NewBinaryXOR", 1}, {"NewBinaryClear", 1},
+	{"NewBitSetTest", 1}, {"NewBitClrTest", 1}, {"NewLogicalAND", 1}, {"NewLogicalOR", 1},
 }
 
 var weightedBuilders []string
@@ -963,16 +970,16 @@ func genCase(t *rapid.T) Case {
 		wx := drawWidth(t, "wx", hv)
 		k := rapid.IntRange(0, 99).Draw(t, "wy-rel")
 		switch {
-		case k < 50:
-			return wx, wx
-		case k < 65: // the other operand is an untyped constant: int32/int64
+		case k < 30:
+			return wx, drawWidth(t, "wy", hv)
+		case k < 50: // the other operand is an untyped constant: int32/int64
 			c := rapid.SampledFrom([]int{32, 32, 64}).Draw(t, "const-width")
-			if k < 58 {
+			if k < 40 {
 				return wx, c
 			}
 			return c, wx
 		}
-		return wx, drawWidth(t, "wy", hv)
+		return wx, wx
 	}
 	resultWidth := func(wx, wy int) int {
 		mn, mx := imin(wx, wy), imax(wx, wy)
